@@ -86,15 +86,21 @@ func openFile(w *world.World, root cid.Cid, via int) (datamodel.Node, string, er
 	if err != nil {
 		return nil, "", err
 	}
+	// w.Ctx is nil unless the scenario set one (callers without a context pass
+	// the zero LinkContext)
 	if via == 0 || root.Prefix().Codec != cid.DagProtobuf {
-		fn, err := file.NewUnixFSFile(context.Background(), n, &w.LS)
+		ctx := w.Ctx
+		if ctx == nil {
+			ctx = context.Background()
+		}
+		fn, err := file.NewUnixFSFile(ctx, n, &w.LS)
 		return fn, "file.NewUnixFSFile", err
 	}
 	if via == 2 {
-		fn, err := w.LS.KnownReifiers["unixfs-preload"](ipld.LinkContext{}, n, &w.LS)
+		fn, err := w.LS.KnownReifiers["unixfs-preload"](ipld.LinkContext{Ctx: w.Ctx}, n, &w.LS)
 		return fn, "unixfs-preload reifier", err
 	}
-	fn, err := unixfsnode.Reify(ipld.LinkContext{}, n, &w.LS)
+	fn, err := unixfsnode.Reify(ipld.LinkContext{Ctx: w.Ctx}, n, &w.LS)
 	return fn, "unixfsnode.Reify", err
 }
 
@@ -132,6 +138,12 @@ func (c04) Run(ts *tape.Set, tier Tier) *Result {
 	content := model.Content
 	L := int64(len(content))
 	bounds := model.Boundaries()
+	for _, sp := range model.Spans {
+		if sp.Cid.Prefix().MhType == 0 { // identity multihash: an inlined block
+			res.probe("inline-identity-block")
+			break
+		}
+	}
 	sc := &c04Scenario{File: spec.String(), Blocks: len(model.Spans), Len: int(L), Readers: nReaders, Frag: fragMode}
 	res.Scenario = sc
 	if len(model.BlockSet()) < len(model.Spans) {
